@@ -242,6 +242,65 @@ theorem linear_curve_len_position_err_float32_partial (fuel : Nat) (mode : GameM
     · exact vertex_cp_or_last pts c.path h1 (k + 1) p1 hk1
     · rw [hk1]; exact vertex_cp_or_last pts c.path h1 k p0 hk0
 
+/-- **`LenAdjOk` reduced to the re-projected end point of the NATURAL path**: under the hypotheses of the shape theorem and
+bounded control points, the last vertex of the adjusted path is fine as soon as, in the main (cut / extension) outcome, the
+point `cutPoint 0 path L = reproject p_k p_{k+1} ((L − len_k) as f32)` (`C16.cutPoint_eq_reproject`) is finite and bounded by
+`2¹⁹` — the statement the C16 end-point theorems are about. -/
+theorem linear_curve_len_lenAdjOk (fuel : Nat) (mode : GameMode) (pts : List (PathControlPoint Float32)) (L : Float)
+    (b b' : CurveBuffers Float32 Float) (c : Curve Float32 Float)
+    (hl : AllLinear pts) (hne : pts ≠ [])
+    (hbd : ∀ cp ∈ pts, Bounded19 cp.pos) (hfp : ∀ cp ∈ pts, FinitePos cp.pos) (hL : FX.Finite64 L)
+    (h : Curve.new fuel mode pts (some L) b = .ok (c, b'))
+    (hcut : ∀ b1, calculatePath fuel mode pts b = .ok (b1, (0 : Float)) → MainOutcome (0 : Float) b1.path L →
+      FinitePos (cutPoint (0 : Float) b1.path L) ∧ Bounded19 (cutPoint (0 : Float) b1.path L)) :
+    LenAdjOk c.path := by
+  obtain ⟨_, _, _, _, _, b1, hp, h6, _⟩ := linear_curve_len_shape fuel mode pts L b b' c hl hne hfp hL h
+  refine ⟨fun v hv => ?_⟩
+  rcases h6 v hv with ⟨cp, hcp, rfl⟩ | ⟨rfl, hm⟩
+  · exact ⟨hfp cp hcp, hbd cp hcp⟩
+  · exact hcut b1 hp hm
+
+/-- in the main outcome the two points the end point is re-projected from, `p_k = path[cutIdx − 1]` and
+`p_{k+1} = path[cutIdx]`, are vertices of the natural path — control-point positions for all-linear control points, so the
+hypotheses `Bounded19 pp`, `Bounded19 pe` of `C16.cut_end_point_near_segment_float` / `C16.ext_end_point_near_ray` hold. -/
+theorem cutPoint_base_vertices (fuel : Nat) (mode : GameMode) (pts : List (PathControlPoint Float32)) (L : Float)
+    (b b1 : CurveBuffers Float32 Float) (hl : AllLinear pts)
+    (hp : calculatePath fuel mode pts b = .ok (b1, (0 : Float))) (hm : MainOutcome (0 : Float) b1.path L) :
+    (∃ cp ∈ pts, cp.pos = b1.path.getD (cutIdx (0 : Float) b1.path L - 1) Pos.zero) ∧
+    (∃ cp ∈ pts, cp.pos = b1.path.getD (cutIdx (0 : Float) b1.path L) Pos.zero) := by
+  obtain ⟨hmem, _, _⟩ := linear_path_vertices fuel mode pts b b1 0 hl hp
+  obtain ⟨_, _, h2, hk⟩ := hm
+  have hne : b1.path ≠ [] := by intro h0; rw [h0] at h2; simp at h2
+  have hle : cutIdx (0 : Float) b1.path L ≤ b1.path.length - 1 := by
+    have := lastValid_le (natLens (0 : Float) b1.path).dropLast L
+    rw [List.length_dropLast, natLens_length 0 b1.path hne] at this
+    exact this
+  have key : ∀ i, i < b1.path.length → b1.path.getD i Pos.zero ∈ b1.path := by
+    intro i hi
+    rw [List.getD_eq_getElem?_getD, List.getElem?_eq_getElem hi]
+    exact List.getElem_mem hi
+  exact ⟨hmem _ (key _ (by omega)), hmem _ (key _ (by omega))⟩
+
+/-- **`linear_curve_len_position_err_float32_of_cutPoint`** — the position theorem with every hypothesis on the NATURAL
+path / the control points: `hnt` excludes the equal-tail outcome (last two path points equal and `L >` natural length),
+`hcut` is the C16 statement about the re-projected end point. -/
+theorem linear_curve_len_position_err_float32_of_cutPoint (fuel : Nat) (mode : GameMode)
+    (pts : List (PathControlPoint Float32)) (L : Float)
+    (b b' : CurveBuffers Float32 Float) (c : Curve Float32 Float) (q : Float)
+    (hl : AllLinear pts) (hne : pts ≠ [])
+    (hbd : ∀ cp ∈ pts, Bounded19 cp.pos) (hfp : ∀ cp ∈ pts, FinitePos cp.pos) (hL : FX.Finite64 L)
+    (h : Curve.new fuel mode pts (some L) b = .ok (c, b'))
+    (hnt : ∀ b1, calculatePath fuel mode pts b = .ok (b1, (0 : Float)) → equalTail (0 : Float) b1.path L = false)
+    (hcut : ∀ b1, calculatePath fuel mode pts b = .ok (b1, (0 : Float)) → MainOutcome (0 : Float) b1.path L →
+      FinitePos (cutPoint (0 : Float) b1.path L) ∧ Bounded19 (cutPoint (0 : Float) b1.path L))
+    (hq : Scalar.isNaN q = false) : NearAdjustedPolyline pts c q := by
+  have hok := linear_curve_len_lenAdjOk fuel mode pts L b b' c hl hne hbd hfp hL h hcut
+  obtain ⟨_, _, _, _, _, b1, hp, _, h7⟩ := linear_curve_len_shape fuel mode pts L b b' c hl hne hfp hL h
+  refine linear_curve_len_position_err_float32_partial fuel mode pts L b b' c q hl hne hbd hfp hL h hok ?_ hq
+  rcases h7 with h7 | ⟨h7, _⟩
+  · exact h7
+  · rw [hnt b1 hp] at h7; cases h7
+
 /-- the full statement: no `LenAdjOk`; instead the decoder's range of the length field `0 < L ≤ 131072`, control points
 bounded by `2¹⁷`, and the equal-tail outcome excluded by "the last two control points differ or `L ≤` natural length" —
 stated through the natural path. NOT proved: the hypotheses of `C16.cut_end_point_near_segment_float` /
